@@ -87,7 +87,12 @@ def eval_real(pt, case):
         return used, atoms, [nc.scat_tuple(nsf.neutron_scattering(f, **kw))], [1.798]
     import numpy as np
     ws = case["w"]
-    arg = nc.reused_array(ws) if case.get("array", True) else nc.reused_list(ws)
+    if case.get("intvec"):
+        # integer wavelengths given as integers (list, tuple or integer array): the same numbers
+        ints = [int(w) for w in ws]
+        arg = [ints, tuple(ints), np.array(ints)][len(ints) % 3]
+    else:
+        arg = nc.reused_array(ws) if case.get("array", True) else nc.reused_list(ws)
     res = nsf.neutron_scattering(f, wavelength=arg, **kw)
     out = nc.scat_vectors(res, len(ws))
     if isinstance(out, str):
@@ -335,6 +340,13 @@ def gen_case(rng, pools):
     else:
         case.update(mode="vector", w=[nc.gen_wavelength(rng, pools) for _ in range(rng.randint(1, 5))],
                     array=rng.random() < 0.7)
+        if rng.random() < 0.2:
+            case.update(w=[float(rng.randint(1, 20)) for _ in range(rng.randint(1, 5))], intvec=True)
+    if rng.random() < 0.06 and pools.nodata:
+        # an atom without neutron data with count zero is still part of the compound: the result is unknown
+        z, A = rng.choice(pools.nodata)
+        if [z, A, 0] not in [a[:3] for a in case["atoms"]]:
+            case["atoms"] = case["atoms"] + [[z, A, 0, 0.0]]
     return case
 
 
@@ -351,6 +363,18 @@ def run_cases(run, pt, orc, tl, cases, corr, tag=None):
     pre = []
     for c in cases:
         f = real_compound(pt, c)
+        if c.get("natural") and "struct" not in c and f.density is not None:
+            # density = natural_density / (mass with every isotope replaced by its natural element, charges kept,
+            # over the actual mass) - from the atoms' own masses, not from Formula.natural_mass_ratio()
+            me = float(me_exact())
+            nat = act = 0.0
+            for a, cnt in f.atoms.items():
+                z, _, q = pyside.key_of(a)
+                nat += cnt * (pt.elements[z].mass - q * me)
+                act += cnt * a.mass
+            if act > 0 and nat > 0 and not close(f.density, c["density"] * act / nat, rel=1e-9):
+                run.violation("a compound given by its natural density gets density %r, not natural_density x actual mass / "
+                              "natural mass = %r" % (f.density, c["density"] * act / nat), c, site="natural-density")
         pre.append((f.density, nc.atoms_of(f)))
         lines.append(model_line(c, f.density, nc.atoms_of(f)))
     rep = run_driver("neutron", lines)
